@@ -567,7 +567,7 @@ func cmdCheck(args []string) int {
 	var samples []interface{}
 	var allNames []string
 	assumptions := map[string]bool{}
-	var undecidedList, trusted, funcsUnderContract, knownHit, unclaimedList, slow []string
+	var undecidedList, trusted, funcsUnderContract, knownHit, unclaimedList, slow, trivialNames []string
 	vacuity := 0
 	exit := 0
 	replayDir := filepath.Join(outRoot, "replays", pid)
@@ -580,6 +580,11 @@ func cmdCheck(args []string) int {
 		funcsUnderContract = append(funcsUnderContract, shortPkg(it.pkg)+"."+it.fc.Key)
 		for _, a := range fr.Assumptions {
 			assumptions[a] = true
+		}
+		for _, tn := range fr.Trivial {
+			if _, solved := stats[i][tn]; !solved {
+				trivialNames = append(trivialNames, tn)
+			}
 		}
 		for _, u := range fr.Undecided {
 			fmt.Printf("UNDECIDED property=%s function=%s reason=%s\n", pid, fr.Name, u)
@@ -750,7 +755,8 @@ func cmdCheck(args []string) int {
 	}
 	writeEvidence(pid, tier, seed, level, cov, sortedKeys(assumptions), time.Since(t0).Seconds(), violations)
 	if os.Getenv("GOVC_WRITE_BASELINE") != "" {
-		updateBaseline(pid, items2names(allNames))
+		// names whose goal folded to true on the reference tree are part of the baseline as well (never counted as obligations)
+		updateBaseline(pid, items2names(append(append([]string(nil), allNames...), trivialNames...)))
 	}
 	fmt.Printf("property=%s tier=%s obligations=%d discharged=%d undecided=%d violations=%d known=%d wall=%.1fs\n", pid, tier, total, discharged, undecidedN, violations, len(knownHit), time.Since(t0).Seconds())
 	return exit
